@@ -1442,6 +1442,34 @@ def unroll_loops(repo, f, counter):
                     h.body = rewrite(h.body)
             if isinstance(st, ast.For) and not st.orelse and not any(isinstance(x, (ast.Break, ast.Return)) for b in st.body for x in ast.walk(b)):
                 rows = _rows(repo, f, st.iter)
+                if rows is None and isinstance(st.iter, (ast.List, ast.Tuple)) and 1 <= len(st.iter.elts) <= MAX_ROWS and isinstance(st.target, (ast.Tuple, ast.List)) \
+                        and all(isinstance(t, ast.Name) for t in st.target.elts) \
+                        and all(isinstance(r, (ast.Tuple, ast.List)) and len(r.elts) == len(st.target.elts) and not any(isinstance(x, ast.Starred) for x in r.elts) for r in st.iter.elts) \
+                        and any(_const(x) for r in st.iter.elts for x in r.elts):
+                    # a literal display of rows with arbitrary element expressions: the display is evaluated completely before the first
+                    # iteration, so its non-trivial elements are evaluated into temporaries first (display order); the rows are then cheap
+                    k = counter[0]
+                    counter[0] += 1
+                    new_rows, pre = [], []
+                    for i, r in enumerate(st.iter.elts):
+                        els = []
+                        for j, x in enumerate(r.elts):
+                            if _const(x) or _cheap(x):
+                                els.append(x)
+                            else:
+                                tnm = f"{st.target.elts[j].id}__d{k}_{i}"
+                                pre.append(ast.Assign(targets=[ast.Name(id=tnm, ctx=ast.Store())], value=copy.deepcopy(x), lineno=getattr(st, "lineno", 0), col_offset=0))
+                                els.append(ast.Name(id=tnm, ctx=ast.Load()))
+                        new_rows.append(ast.Tuple(elts=els, ctx=ast.Load()))
+                    trial = ast.Tuple(elts=new_rows, ctx=ast.Load())
+                    rows2 = _rows(repo, f, trial)
+                    if rows2 is not None and pre:
+                        for a_ in pre:
+                            ast.fix_missing_locations(a_)
+                        out.extend(pre)
+                        st = copy.copy(st)
+                        st.iter = trial
+                        rows = rows2
                 if rows is None:
                     # a display of arbitrary expressions driving a body of pure local arithmetic (an accumulation):
                     # evaluate the elements into temporaries first (display order), then run the copies of the body
@@ -2778,6 +2806,8 @@ def has_constant_structure(repo, f):
             return True
         if isinstance(n, ast.For) and isinstance(n.iter, (ast.List, ast.Tuple)):
             return True
+        if isinstance(n, ast.Assign) and len(n.targets) == 1 and isinstance(n.targets[0], (ast.Tuple, ast.List)) and any(isinstance(t, ast.Starred) for t in n.targets[0].elts):
+            return True
         if isinstance(n, ast.keyword) and n.arg is None and isinstance(n.value, ast.Name):
             return True
         if isinstance(n, ast.If) and len(n.body) == 1 and isinstance(n.body[0], ast.Raise) and isinstance(n.test, ast.Compare) and isinstance(n.test.left, ast.Name) \
@@ -2822,7 +2852,7 @@ def partial_evaluate(repo, max_rounds=8):
             if steps and loops_over_generator_expressions(f.node, counter):
                 ch = True
                 steps.append("genexp-loops")
-            if steps and star_unpack_of_lists(f.node):
+            if star_unpack_of_lists(f.node):
                 ch = True
                 steps.append("star-unpack")
             if inline_expression_helpers(repo, f):
